@@ -8,7 +8,7 @@
 // Case space (per context x dtype {0 float, 1 double}; lanes = bit width / element bits):
 //   un    |op,dt,lay           |shape            unary ufunc  (12 ops with a SIMD implementation)
 //   bin   |op,dt,layL,layR     |lshape|rshape    add/subtract/multiply/divide, same shape or 2-D broadcasting
-//   outer |op,dt,layL,layR     |lshape|rshape    add/subtract/multiply .outer (nmtools has no divide.outer)
+//   outer |op,dt,layL,layR     |lshape|rshape    add/subtract/multiply .outer (nmtools has no divide.outer); left S(1..3,{1,2,3}), right: every 1-D count + S(2..3,V)
 //   red   |op,dt,lay,kd        |shape|axis       add.reduce / multiply.reduce; axis "_" = None, else one axis (positive or negative
 //                                                spelling); kd 0 nm::False 1 nm::True 2 run-time false 3 run-time true
 //   mm    |dt,layL             |M,K,N            matmul (lhs row- or column-major; rhs column-major: the only storage the SIMD matmul accepts,
@@ -238,6 +238,7 @@ void nmc_enumerate(const nmc::Tier& t, const nmc::Sink& emit) {
             RS = dedupe(RS);
             for (auto& ls : LS) for (auto& rs : RS) {
                 if (ls.size() == 3 && rs.size() == 1 && rs[0] > ln + 1 && rs[0] != 2 * ln + 1 && rs[0] != maxn) continue;   // 3-d left x every count: boundary counts only
+                if (ls.size() == 3 && rs.size() == 3 && rs[0] > 2) continue;                                                // 3-d x 3-d: leading extent of the right operand 1..2 (size)
                 for (long ll = 0; ll <= (ls.size() > 1 ? 1 : 0); ll++) for (long rl = 0; rl <= (rs.size() > 1 ? 1 : 0); rl++)
                     for (long op = 0; op < r12::B_DIV; op++) put(Case("outer", {{op, dt, ll, rl}, ls, rs}));   // add, subtract, multiply (divide.outer does not exist)
             }
